@@ -42,7 +42,7 @@ def gen(rng, tier, idx):
         return {'op': 'sweep', 'block': idx * step, 'use_data': idx % 2 == 0, 'kcfg': {}}
     op = OPS[idx % len(OPS)]
     big = rng.random() < 0.2
-    big_shape = rng.choice([(25, 14), (25, 14), (3, 240), (240, 3), (12, 40), (2, 130), (260, 4), (4, 260)])
+    big_shape = rng.choice([(25, 14), (25, 14), (3, 240), (240, 3), (12, 40), (2, 130), (260, 4), (4, 260), (40, 14)])
     if tier == 'thorough' and rng.random() < 0.03:
         big, big_shape = True, rng.choice([(65600, 2), (2, 65600)])
     m = {'seed': rng.randrange(2 ** 31), 'n_rows': rng.choice([1, 2, 3, 4, 6, 9, 19]) if not big else big_shape[0],
@@ -220,6 +220,25 @@ def run_op(scn, sb, res):
                 bad.append('%s: pivoted matrix differs from the original' % what)
             if list(a.obs_names) != ids or list(a.var_names) != genes:
                 bad.append('%s: obs/var names changed' % what)
+            if not bad and c >= 1:
+                # the operations compose: the pivoted file is the input of the column sub-setting
+                from cell_type_mapper.utils.anndata_utils import subset_csc_h5ad_columns
+                dst2 = sb.p('out', 'csc_subset.h5ad')
+                k = int(r.integers(1, c + 1))
+                cols = r.permutation(c)[:k]
+                o2 = drivers.outcome_of(subset_csc_h5ad_columns, src_path=dst, dst_path=dst2, chosen_columns=cols,
+                                        compression=cfg['compression'])
+                if o2[0] != 'ok':
+                    bad.append('%s: column sub-setting of the pivoted file raises %s' % (what, o2[1][:200]))
+                else:
+                    try:
+                        X2, a2 = _read_x(dst2)
+                        sc = sorted(int(x) for x in cols)
+                        if X2.shape != (n, k) or not np.array_equal(X2.astype(float), M[:, sc].astype(float)):
+                            bad.append('%s: column subset %r of the pivoted file differs from M[:, cols]' % (what, sc))
+                    except Exception as e:
+                        bad.append('%s: column subset of the pivoted file is unreadable: %s: %s'
+                                   % (what, type(e).__name__, str(e)[:150]))
     elif op == 'shuffle':
         from cell_type_mapper.utils.anndata_utils import shuffle_csr_h5ad_rows
         src = sb.p('in', 'm.h5ad')
